@@ -58,10 +58,32 @@ def analyse(ctx, rep, rule):
             c.kind = 'return'
             c.path = p
             r = strip_upd(p.ret)
-            if not sym.is_const(r):
-                raise CannotTabulate('return value %s is not a constant' % show(r))
-            c.ret = r[1]
             c.atoms = path_atoms(p, b, rep, rule)
+            if not sym.is_const(r):
+                # a code computed from conditions (`u8::from(split1 && split2)`): evaluated under the path's assumptions; atoms the
+                # path has not decided split the case
+                inner = r
+                if r[0] in ('call', 'pcall') and r[1].endswith('::from') and len(r[2]) == 1:
+                    inner = strip_upd(r[2][0])
+                elif r[0] == 'cast':
+                    inner = strip_upd(r[2])
+                free = sorted(set(n for n in _bool_leaves(inner, p) if n not in c.atoms))
+                if len(free) > 4:
+                    raise CannotTabulate('return value %s depends on too many undecided conditions' % show(r)[:120])
+                first = True
+                for vals in itertools.product((False, True), repeat=len(free)):
+                    c2 = c if first else Case()
+                    first = False
+                    c2.kind, c2.path = 'return', p
+                    c2.atoms = dict(c.atoms)
+                    c2.atoms.update(dict(zip(free, vals)))
+                    c2.ret = int(_bool_eval(inner, c2.atoms, p))
+                    c2.split = True
+                    if c2 is not c:
+                        c2.pending = True
+                        cases.append(c2)
+            else:
+                c.ret = r[1]
             c.divs = []
             for e in p.calls('divide_segment'):
                 a0 = e['args'][0]
@@ -81,12 +103,53 @@ def analyse(ctx, rep, rule):
             # intersection() must be called on exactly the four endpoints
             ic = list(p.calls('intersection'))
             c.inter_args = [point_name(a, p) for a in ic[0]['args']] if ic else None
+            for c2 in cases:
+                if getattr(c2, 'pending', False) and c2.path is p:
+                    c2.divs, c2.types, c2.inter_args, c2.pending = c.divs, c.types, c.inter_args, False
             cases.append(c)
     except (CannotTabulate, sym.CannotAnalyse) as e:
         rep.ob(rule, 'tabulable:possible_intersection', False, 'cannot tabulate possible_intersection: %s' % e,
                loc=b.loc(b.j['line_lo']), reason='cannot-tabulate')
         return None
     return b, cases
+
+
+def _leaf_name(x, p):
+    """(atom name, negated) of a comparison leaf, in the canonical naming of path_atoms"""
+    name = cond_name(x, p)
+    if name is None:
+        raise CannotTabulate('condition %s in the return value is not modelled' % show(noepoch(x))[:120])
+    neg = False
+    if name.startswith('ne('):
+        name, neg = 'eq(' + name[3:], True
+    return name, neg
+
+
+def _bool_leaves(v, p):
+    x = strip_upd(v)
+    if sym.is_const(x):
+        return []
+    if x[0] == 'op' and x[1] == 'not':
+        return _bool_leaves(x[2], p)
+    if x[0] == 'op' and x[1] in ('bitand', 'bitor', 'bitxor') and len(x) == 4:
+        return _bool_leaves(x[2], p) + _bool_leaves(x[3], p)
+    return [_leaf_name(x, p)[0]]
+
+
+def _bool_eval(v, atoms, p):
+    x = strip_upd(v)
+    if sym.is_const(x):
+        return bool(x[1])
+    if x[0] == 'op' and x[1] == 'not':
+        return not _bool_eval(x[2], atoms, p)
+    if x[0] == 'op' and x[1] in ('bitand', 'bitor', 'bitxor') and len(x) == 4:
+        a, b_ = _bool_eval(x[2], atoms, p), _bool_eval(x[3], atoms, p)
+        return {'bitand': a and b_, 'bitor': a or b_, 'bitxor': a != b_}[x[1]]
+    name, neg = _leaf_name(x, p)
+    val = atoms[name]
+    if not isinstance(val, bool):
+        raise CannotTabulate('condition %s in the return value has no boolean assumption' % name)
+    return (not val) if neg else val
 
 
 ATOM_RE = {
